@@ -16,7 +16,7 @@ from ..spec import int_range
 
 LEVEL = "exploration"
 SHARDS = {"quick": 1, "thorough": 16}
-REQUIRED = ("errors_judged", "failing_field_confirmed_by_trace", "nested_errors_judged", "flat_errors_judged",
+REQUIRED = ("nonbytes_inputs_rejected_with_silent", "errors_judged", "failing_field_confirmed_by_trace", "nested_errors_judged", "flat_errors_judged",
             "pack_errors_judged", "unpack_errors_judged", "run_names_accepted", "nonbytes_inputs_rejected",
             "silent_none_checked", "pack_collisions_judged")
 MIN_NONTRIVIAL = 150
@@ -180,19 +180,25 @@ NONBYTES = ["text", bytearray(b"\x00\x01"), memoryview(b"\x00\x01"), None, 7, [0
 
 
 def nonbytes_probe(run, bench):
+    """Input that is not bytes is rejected with ValueError - whatever the other arguments are (silent=True only turns
+    *parse failures* into None; a start offset does not matter either)."""
     for v in ("g", "d"):
         cls = bench.root(v)
         for bad in NONBYTES:
-            try:
-                cls.unpack(bad)
-            except ValueError:
-                run.count("nonbytes_inputs_rejected")
-            except Exception as e:
-                run.violation("unpack(%s) raised %s instead of ValueError" % (type(bad).__name__, type(e).__name__),
-                              {"source": driver.src_of(bench), "variant": v, "input_type": type(bad).__name__}, None)
-            else:
-                run.violation("unpack(%s) did not raise ValueError" % type(bad).__name__,
-                              {"source": driver.src_of(bench), "variant": v, "input_type": type(bad).__name__}, None)
+            for kwargs in ({}, {"silent": True}, {"offset": 1}, {"offset": 0, "silent": True}):
+                how = "unpack(%s%s)" % (type(bad).__name__, "".join(", %s=%r" % kv for kv in sorted(kwargs.items())))
+                try:
+                    res = cls.unpack(bad, **kwargs)
+                except ValueError:
+                    run.count("nonbytes_inputs_rejected")
+                    if kwargs.get("silent"):
+                        run.count("nonbytes_inputs_rejected_with_silent")
+                except Exception as e:
+                    run.violation("%s raised %s instead of ValueError" % (how, type(e).__name__),
+                                  {"source": driver.src_of(bench), "variant": v, "input_type": type(bad).__name__, "kwargs": kwargs}, None)
+                else:
+                    run.violation("%s did not raise ValueError (returned %s)" % (how, "None" if res is None else "a packet"),
+                                  {"source": driver.src_of(bench), "variant": v, "input_type": type(bad).__name__, "kwargs": kwargs}, None)
 
 
 def f12_probe(run):
